@@ -5,8 +5,10 @@ import (
 	"errors"
 	"fmt"
 	"io"
+	"net/url"
 	"reflect"
 	"strings"
+	"sync"
 	"time"
 	"unsafe"
 
@@ -158,6 +160,16 @@ func c13outcome(code int, n int, name string, rnd int) (zsim.Outcome, error) {
 	return o, o.Err
 }
 
+// sinks handed out by the zsimc13 scheme (registered once per process)
+var (
+	c13register  sync.Once
+	c13openSinks []*zsim.SimSink
+)
+
+type c13sink struct{ *zsim.SimSink }
+
+func (s c13sink) Close() error { return s.SimSink.Close() }
+
 func c13multi(c *Ctx) {
 	g, r := c.G, c.R
 	k := 2 + g.Weighted(3, 3, 1)
@@ -176,7 +188,22 @@ func c13multi(c *Ctx) {
 	// already combined into a multi-WriteSyncer of its own (first, last or
 	// middle position); the observable contract is the same
 	shape := g.Draw(4)
-	c.Describe("member=multi sinks=%d payload=%d vectors=%d exhaustive=%v shape=%d", k, plen, vectors, enumerate, shape)
+	// who builds it: NewMultiWriteSyncer, CombineWriteSyncers (the same behind
+	// Lock), or zap.Open over sinks from a registered factory
+	via := g.Weighted(3, 1, 1)
+	if via == 2 {
+		shape = 0
+		c13register.Do(func() {
+			_ = zap.RegisterSink("zsimc13", func(u *url.URL) (zap.Sink, error) {
+				var i int
+				if _, err := fmt.Sscanf(u.Host, "s%d", &i); err != nil || i < 0 || i >= len(c13openSinks) {
+					return nil, fmt.Errorf("no such sink %q", u.Host)
+				}
+				return c13sink{c13openSinks[i]}, nil
+			})
+		})
+	}
+	c.Describe("member=multi sinks=%d payload=%d vectors=%d exhaustive=%v shape=%d built-by=%s", k, plen, vectors, enumerate, shape, []string{"NewMultiWriteSyncer", "CombineWriteSyncers", "zap.Open"}[via])
 	c.Nontrivial = true
 	for v := 0; v < vectors; v++ {
 		code := v
@@ -236,7 +263,27 @@ func c13multi(c *Ctx) {
 			args = append(args, ws[hi:]...)
 		}
 		given := append([]zapcore.WriteSyncer(nil), args...)
-		m := zapcore.NewMultiWriteSyncer(args...)
+		var m zapcore.WriteSyncer
+		switch via {
+		case 0:
+			m = zapcore.NewMultiWriteSyncer(args...)
+		case 1:
+			m = zap.CombineWriteSyncers(args...)
+		default:
+			// the multi-WriteSyncer programs get from zap.Open: the sinks come
+			// from a registered factory
+			c13openSinks = sinks
+			var urls []string
+			for i := range sinks {
+				urls = append(urls, fmt.Sprintf("zsimc13://s%d/x", i))
+			}
+			opened, _, oerr := zap.Open(urls...)
+			if oerr != nil {
+				c.Fail("C13: harness: zap.Open over the registered scheme failed", "%v", oerr)
+				return
+			}
+			m = opened
+		}
 		for i := range given {
 			if !c13same(args[i], given[i]) {
 				c.Fail("C13: NewMultiWriteSyncer modified the slice of sinks it was given", "shape %d: element %d was replaced", shape, i)
